@@ -12,6 +12,8 @@ import time
 VERIF = os.path.dirname(os.path.dirname(os.path.abspath(__file__)))
 REPO = os.environ.get('VERIF_REPO', '/repo')
 BUILD = os.path.join(VERIF, '.build')
+# development aid: seed evaluation against a scratch worktree writes its evidence / replays elsewhere
+OUT = os.environ.get('VERIF_EVIDENCE_DIR') or VERIF
 CACHE = os.path.join(BUILD, 'cache')
 TINY_DEPS = os.path.join(BUILD, 'tinydep', 'debug', 'deps')
 
